@@ -192,6 +192,33 @@ def search_two_grids(chk, r, n, thorough):
             d = dict(obs=name, process=proc, PTO=pto, x=x, Q2=Q2, log=log, degreeA=dA, degreeB=dB, NA=NA, NB=len(gB), predictionA=a, predictionB=b, rel=rel, where=["generic", "nodeA", "near-nodeA", "near-nodeB", "top", "bottom"][j], gridB_listed_ascending=listedB == gB, gridA=gA, gridB=listedB)
             chk.search_case("two_grids_agree_in_span", rel <= 2e-7, what=f"{name} {proc} PTO={pto} x={x!r} ({d['where']}) log={log} degrees {dA}/{dB} N {NA}/{len(gB)}: predictions for a PDF in the common span differ by {rel:.2e} ({a} vs {b})", data=d, sample={k: v for k, v in d.items() if not k.startswith("grid")} if j == 2 else None, nontrivial=abs(a) > 0)
 
+    # across interpolation modes, and with x on the *lowest* node of one grid: a constant PDF lies in the span
+    # of every basis (partition of unity), so a logarithmic grid, a linear grid and a logarithmic grid that
+    # starts lower must all give the same prediction, at LO and at NLO
+    gLog = cards.geomspace(1e-2, 1.0, 9)
+    gLow = cards.geomspace(4e-3, 1.0, 11)
+    gLin = cards.linspace(5e-3, 1.0, 14)
+    gLog[-1] = gLow[-1] = gLin[-1] = 1.0
+    cpdf = LogPolyPDF(0, 7)
+    xs = [float(gLog[0]), float(gLog[0] * (1 + 1e-9)), 0.0371, float(gLog[4]), 0.62]
+    for kind, proc, pto in (("F2", "NC", 1), ("F3", "CC", 1), ("F2", "EM", 0)):
+        name = f"{kind}_light"
+        t = cards.theory(PTO=pto)
+        pts = [dict(x=x, Q2=20.0) for x in xs]
+        outs = {}
+        try:
+            for tag, g, lg, dg in (("log", gLog, True, 3), ("log-lower", gLow, True, 3), ("linear", gLin, False, 2)):
+                outs[tag] = yadism.run_yadism(t, cards.obs({name: pts}, interpolation_xgrid=g, interpolation_polynomial_degree=dg, interpolation_is_log=lg, prDIS=proc, ProjectileDIS="neutrino" if proc == "CC" else "electron"))
+        except Exception as e:  # noqa
+            chk.search_case("two_grids_agree_in_span", False, what=f"{name} PTO={pto} (modes): {type(e).__name__}: {e}"[:200], data=dict(grid=gLog))
+            continue
+        for j, x in enumerate(xs):
+            vals = {tag: predict(o[name][j], o, cpdf) for tag, o in outs.items()}
+            sc = max(predict_scale(outs["log"][name][j], outs["log"], cpdf), 1e-300)
+            rel = max(abs(vals["log"] - vals[k_]) for k_ in ("log-lower", "linear")) / sc
+            d = dict(obs=name, process=proc, PTO=pto, x=x, Q2=20.0, predictions=vals, rel=rel, where=["lowest node of the log grid", "next to the lowest node", "generic", "interior node", "generic"][j])
+            chk.search_case("two_grids_agree_in_span", rel <= 2e-7, what=f"{name} {proc} PTO={pto} x={x!r} ({d['where']}): a constant PDF gives {vals} on a logarithmic grid, a logarithmic grid starting lower and a linear grid (rel {rel:.2e})", data=d, nontrivial=abs(vals["log"]) > 0)
+
 
 def search_scale_variation(chk, r, n):
     """factorisation-scale orders go through the operator of the splitting functions on the grid nodes
